@@ -198,7 +198,7 @@ fn clip(s: &str, n: usize) -> String {
 
 pub fn run(ctx: &Ctx) {
     let mut rep = Report::new("C04", &ctx.tier, ctx.seed);
-    rep.rule = "stream (a): valid serialisations of every text kind of every backend (tokens, keys, ids, PIE / PBKW / sealed keys) mutated by bit flips of the decoded data, truncation, extension, header relabel, segment swaps, zero / ones fill, character edits; stream (b): random strings over all bytes (valid UTF-8), and every header followed by random data of decoded length 0..700 (random / zero / ones). Every string goes through all 17 FromStr impls of all six backends (parse, Display, serde) and through Key::from_str + to_string / id / clone / public_key / sign / seal-to / encrypt / wrap, decrypt, verify, PIE and PBKW unwrap (cost budget <= 64 MiB, <= 3 passes, <= 10000 iterations), unseal-key, each under catch_unwind; distinct = (backend, stream, text kind, mutation)".into();
+    rep.rule = "stream (h): many honest seals / unseals / signatures per backend (value-dependent paths), the time validators at the ends of the time range with leeways up to 136 years; stream (a): valid serialisations of every text kind of every backend (tokens, keys, ids, PIE / PBKW / sealed keys) mutated by bit flips of the decoded data, truncation, extension, header relabel, segment swaps, zero / ones fill, character edits; stream (b): random strings over all bytes (valid UTF-8), and every header followed by random data of decoded length 0..700 (random / zero / ones). Every string goes through all 17 FromStr impls of all six backends (parse, Display, serde) and through Key::from_str + to_string / id / clone / public_key / sign / seal-to / encrypt / wrap, decrypt, verify, PIE and PBKW unwrap (cost budget <= 64 MiB, <= 3 passes, <= 10000 iterations), unseal-key, each under catch_unwind; distinct = (backend, stream, text kind, mutation)".into();
     let bs = lab::backends();
     let types = impls::text_types();
     let mut g = SplitMix64::new(ctx.seed ^ 0xC04);
@@ -311,6 +311,82 @@ pub fn run(ctx: &Ctx) {
         if rep.violations.len() >= 40 {
             break;
         }
+    }
+    // ---- honest operations whose outcome depends on a random VALUE (a ciphertext, shared secret or signature with a
+    //      leading zero byte: 1 in 256): many of them, none may panic
+    for (bi, b) in bs.iter().enumerate() {
+        let env = &envs[bi];
+        let n = if b.ver == "v1" { if ctx.thorough() { 4000 } else { 900 } } else if ctx.thorough() { 6000 } else { 1200 };
+        for i in 0..n {
+            rep.evaluations += 1;
+            let key = g.bytes(32);
+            let r = (b.pke_seal)(&env.pke_pk, &key);
+            if r == Err("panic".to_string()) {
+                rep.violation(&format!("c04.{}.panic.seal", b.name), format!("{} LocalKey::seal panicked on seal number {i} to a valid recipient key", b.name), json!({"backend": b.name, "input": hex::encode(&env.pke_pk), "op": "seal-many", "stream": "honest"}));
+                break;
+            }
+            if b.ver != "v1" || i % 40 == 0 {
+                if let Ok(w) = &r {
+                    if (b.pke_unseal)(&env.pke_sk, w) == Err("panic".to_string()) {
+                        rep.violation(&format!("c04.{}.panic.unseal-key", b.name), format!("{} SealedKey::unseal panicked on an honestly sealed key", b.name), json!({"backend": b.name, "input": w, "op": "unseal-many", "stream": "honest"}));
+                        break;
+                    }
+                }
+            }
+            if b.ver != "v1" || i % 10 == 0 {
+                let t = (b.public_sign)(&env.sk, &key, b"", b"", SealVia::Seal);
+                if t == Err("panic".to_string()) || matches!(&t, Ok(t) if (b.public_verify)(&env.pk, t, b"", false).is_err_and(|e| e == "panic")) {
+                    rep.violation(&format!("c04.{}.panic.sign", b.name), format!("{} sign / verify panicked on an honest message", b.name), json!({"backend": b.name, "input": hex::encode(&key), "op": "sign-many", "stream": "honest"}));
+                    break;
+                }
+            }
+        }
+        rep.nontrivial(format!("{}|honest-many", b.name));
+    }
+    // ---- the built-in validators on authenticated claims at the ends of the time range: unsealing calls them, so a
+    //      panic in `validate` is a panic of unseal (instants at Timestamp::MIN / MAX, leeways up to years)
+    {
+        use paseto_core::validation::Validate;
+        use paseto_json::{RegisteredClaims, Time};
+        let ends: Vec<jiff::Timestamp> = {
+            let (mn, mx) = (jiff::Timestamp::MIN, jiff::Timestamp::MAX);
+            let s = jiff::SignedDuration::from_secs(1);
+            let mut v = vec![mn, mx, jiff::Timestamp::UNIX_EPOCH, jiff::Timestamp::from_second(1_700_000_000).unwrap()];
+            v.push(mn.checked_add(s).unwrap());
+            v.push(mx.checked_sub(s).unwrap());
+            v.push(mx.checked_sub(jiff::SignedDuration::from_secs(59)).unwrap());
+            v.push(mn.checked_add(jiff::SignedDuration::from_secs(59)).unwrap());
+            v
+        };
+        let leeways = [std::time::Duration::ZERO, std::time::Duration::from_secs(1), std::time::Duration::from_secs(60), std::time::Duration::from_secs(86_400 * 366), std::time::Duration::from_secs(u32::MAX as u64)];
+        // `now` and the leeway are the CALLER's parameters: `now - leeway` and `now + leeway` must be representable (jiff's
+        // arithmetic panics otherwise; DESIGN §8 C11, "representable"); the claims are the token's and range over everything
+        let margin = jiff::SignedDuration::from_secs(u32::MAX as i64 + 86_400);
+        let nows = [jiff::Timestamp::UNIX_EPOCH, jiff::Timestamp::from_second(1_700_000_000).unwrap(), jiff::Timestamp::MIN.checked_add(margin).unwrap(), jiff::Timestamp::MAX.checked_sub(margin).unwrap()];
+        for now in &nows {
+            for exp in std::iter::once(None).chain(ends.iter().map(Some)) {
+                for nbf in std::iter::once(None).chain(ends.iter().map(Some)) {
+                    for lw in &leeways {
+                        rep.evaluations += 1;
+                        let (now, exp, nbf, lw) = (*now, exp.copied(), nbf.copied(), *lw);
+                        let r = std::panic::catch_unwind(move || {
+                            let mut c = RegisteredClaims::default();
+                            c.exp = exp;
+                            c.nbf = nbf;
+                            let _ = Time::valid_at(now).validate(&c);
+                            let _ = Time::valid_at(now).with_leeway(lw).validate(&c);
+                        });
+                        if r.is_err() {
+                            rep.violation("c04.paseto-json.panic.validate", format!("the time validator panicked: now {now}, exp {exp:?}, nbf {nbf:?}, leeway {lw:?}"), json!({"backend": "paseto-json", "input": format!("{now} {exp:?} {nbf:?} {lw:?}"), "op": "validate", "stream": "time-ends"}));
+                        }
+                    }
+                }
+                if rep.violations.len() >= 40 {
+                    break;
+                }
+            }
+        }
+        rep.nontrivial("paseto-json|validate|time-ends".into());
     }
     // ---- the model never predicts a panic for unseal on arbitrary payloads (and agrees on the error kind)
     for b in &bs {
